@@ -3738,6 +3738,11 @@ fn parse_group<'a>(
     // Create a copy of the errors vector for reporting additional errors.
     let mut errors = term.errors.clone();
 
+    // If we had to skip tokens to find the right parenthesis, report that.
+    if found {
+        errors.append(&mut phony_errors);
+    }
+
     // Check if we found the right parenthesis.
     if !found {
         // We didn't find it. Report an error.
